@@ -7,7 +7,8 @@
                  | k<q>R / k<q>F  the service completes request number q (reply "r" / failure "Error")
                  | z jam (every later send fails) | q<N> set sequence number
                  | w<hex> bytes arrive without the poller running | p the peer closes its end
-                 | m[xu] GetDmx / GetUIDs with a reply object the caller reuses across calls *)
+                 | m[xu] GetDmx / GetUIDs with a reply object the caller reuses across calls
+                 | M<n> n independent channels live side by side; i<k> the following ops belong to channel k *)
 let decode_tbl : (string, msg) Hashtbl.t = Hashtbl.create 16
 let req_tbl : (string, string) Hashtbl.t = Hashtbl.create 16
 let async = ref false
@@ -92,10 +93,15 @@ let handle (p : string) : string =
   let toks = split p in
   let two = List.mem "2" toks in
   let nosvc = List.mem "N" toks in
-  let a = new_chan (if two || nosvc then no_service else method_kind) in
+  let nchan = List.fold_left (fun acc t ->
+      if String.length t > 1 && t.[0] = 'M' then ios (String.sub t 1 (String.length t - 1)) else acc) 1 toks in
+  (* multi-channel mode (M<n>): n independent channels; i<k> selects the channel of the following ops *)
+  let chans = Array.init nchan (fun _ -> new_chan (if two || nosvc then no_service else method_kind)) in
+  let cur = ref 0 in
+  let a = chans.(0) in
   let b = new_chan method_kind in
-  let jam = ref false in
-  let held = ref [] in
+  let jam = Array.make 16 false in
+  let held = Array.make 16 [] in
   let tag = ref "?" in
   let out = Buffer.create 256 in
   let idx = ref 0 in
@@ -103,9 +109,11 @@ let handle (p : string) : string =
     let n = String.length rest in
     let q = n_of_string (String.sub rest 0 (n - 1)) in
     let res = if rest.[n - 1] = 'F' then SFail (bytes_of_hex "4572726f72") else SReply (bytes_of_hex "0a0172") in
-    OpComplete (q, res, not !jam) in
+    OpComplete (q, res, not jam.(!cur)) in
   let emit1 (ev : string) =
-    Buffer.add_string out (Printf.sprintf "o%d=%s%s|H%d;i%d=%s;" !idx (state_s a) ev a.nclose !idx (internal_s a));
+    let c = chans.(!cur) in
+    Buffer.add_string out (Printf.sprintf "o%d=%s%s%s|H%d;i%d=%s;" !idx
+      (if nchan > 1 then Printf.sprintf "#%d#" !cur else "") (state_s c) ev c.nclose !idx (internal_s c));
     incr idx in
   (* two-channel: deliver everything in flight, B first, until quiet *)
   let pump (to_b : msg list) (to_a : msg list) (eva : Buffer.t) (evb : Buffer.t) =
@@ -152,10 +160,12 @@ let handle (p : string) : string =
         (match String.split_on_char ':' rest with
          | [rq; rp] -> Hashtbl.replace req_tbl rq rp
          | _ -> failwith "bad Q")
-      | 'z' -> jam := true
-      | 'p' -> jam := true                      (* the peer went away: every later write to it fails *)
-      | 'w' -> held := !held @ bytes_of_hex rest (* arrived, but the poller has not run yet *)
-      | 'q' -> a.r <- { a.r with seq = n_of_string rest }
+      | 'z' -> jam.(!cur) <- true
+      | 'p' -> jam.(!cur) <- true                      (* the peer went away: every later write to it fails *)
+      | 'w' -> held.(!cur) <- held.(!cur) @ bytes_of_hex rest (* arrived, but the poller has not run yet *)
+      | 'q' -> let c = chans.(!cur) in c.r <- { c.r with seq = n_of_string rest }
+      | 'M' -> ()
+      | 'i' -> cur := ios rest
       | 'c' | 'm' | 'k' ->
         if two then begin
           let eva = Buffer.create 32 and evb = Buffer.create 32 in
@@ -171,16 +181,17 @@ let handle (p : string) : string =
           emit2 eva evb
         end else begin
           let o = match tok.[0] with
-            | 'c' -> let b = !held @ bytes_of_hex rest in held := []; OpChunk (b, not !jam)
-            | 'm' -> let (st, nm, rq) = call_of_code rest in OpCall (st, nm, rq, not !jam)
+            | 'c' -> let b = held.(!cur) @ bytes_of_hex rest in held.(!cur) <- []; OpChunk (b, not jam.(!cur))
+            | 'm' -> let (st, nm, rq) = call_of_code rest in OpCall (st, nm, rq, not jam.(!cur))
             | _ -> complete_op rest in
-          let (e, _, _) = do_op a o true in
+          let (e, _, _) = do_op chans.(!cur) o true in
           emit1 e
         end
       | _ -> failwith "bad token"
     end) toks;
   let fin (c : chan) = if c.r.dead then "dead" else if c.f.closed then "closed" else if int_of_n c.f.expected <> 0 then "midbody" else "open" in
-  let hz = if a.hazard <> "" then a.hazard else if b.hazard <> "" then b.hazard else "none" in
+  let hz = Array.fold_left (fun acc c -> if acc = "none" && c.hazard <> "" then c.hazard else acc)
+             (if b.hazard <> "" then b.hazard else "none") chans in
   (* property-determined and independent of the regenerated constants: a header with a valid version
      announcing more than 1 MB is never accepted, so the channel is closed at the end of an X script *)
   Buffer.add_string out "oversize_accepted=0;";
